@@ -17,6 +17,8 @@ const numaPkg = "pkg/scheduler/plugins/nodenumaresource"
 
 func c06(c *Ctx) {
 	r := c.R
+	r.Rule("PATH(tombstone): the delete handler treats a cache.DeletedFinalStateUnknown (delivered by value) like the object inside it: both reach the release, and no assertion to the pointer type exists")
+	c.Tombstone("PATH", numaPkg, "podEventHandler", "OnDelete", "deletePod")
 	r.Decides("comparator positions in every sort site index only the sorted slice (NUMA hint ids are not slice positions)")
 	r.Decides("addPodAllocation and release write the same five ledgers with dual operations on the same amounts")
 	r.Decides("every access to the NodeAllocation ledgers happens under NodeAllocation.lock (write lock for writes)")
